@@ -57,7 +57,7 @@ CONTRACTS = [
     Contract(
         target=f"{G}:Gaussian.value",
         types={"self": "obj:Gaussian{_center:real;_deviation:real;_min_value:real;_max_value:real;_rng:opaque:rng}"},
-        requires=["self._min_value <= self._max_value"],
+        requires=["self._min_value <= self._max_value", "self._deviation >= 0"],     # numpy refuses a negative scale
         modifies=[],
         loops={"val < self._min_value or val > self._max_value": Loop(invariant=["True"])},
         # partial correctness: whenever the resampling loop exits, the value is inside the declared bounds
